@@ -1044,7 +1044,8 @@ let lw_ty (x : sexp) : coq_N option =
 let rec lw_expr (x : sexp) : LintWalk.expr =
   match x with
   | L [A "bin"; l; r] -> LintWalk.EBinary (lw_expr l, lw_expr r)
-  | L [A "un"; e] -> LintWalk.EUnary (lw_expr e)
+  | L [A "neg"; e] -> LintWalk.EUnary (LintWalk.UNegative, lw_expr e)
+  | L [A "un"; e] -> LintWalk.EUnary (LintWalk.UBitwiseComplement, lw_expr e)
   | L [A "bool"] -> LintWalk.EBool
   | L [A "sint"; A v; t; A p] -> LintWalk.ESigned (z_of_string v, lw_ty t, n_of_string p)
   | L [A "bits"; A v; t; A p] -> LintWalk.EBit (z_of_string v, lw_ty t, n_of_string p)
@@ -1103,14 +1104,19 @@ let run_lintwalk (x : sexp) : string =
   match x with
   | L (A "mod" :: ds) ->
       let ds = List.map lw_decl ds in
-      (* linter.rs: signed literal: value < min when negative, value > max otherwise; bit literal: value > max *)
-      let oor (signed : bool) (v : coq_Z) (t : coq_N) : bool =
-        let (mn, mx) = Hashtbl.find lw_tags (int_of_n t) in
-        if signed && z_lt v Z0 then z_lt v mn else z_lt mx v in
+      (* linter.rs, = LintWalk.range_test over the table (min < 0, min, max) of the interned tags:
+         signed literal: value < min when negative, value > max otherwise; bit literal: value > max;
+         typed bit literal directly under a negation: value > max + 1 at a signed type (min < 0), at an
+         unsigned type the guard of the Unary arm fails and the bit-literal test value > max applies *)
+      let tbl (t : coq_N) : ((bool * coq_Z) * coq_Z) option =
+        match Hashtbl.find_opt lw_tags (int_of_n t) with
+        | Some (mn, mx) -> Some ((z_lt mn Z0, mn), mx)
+        | None -> None in
+      let oor (k : LintWalk.litkind) (v : coq_Z) (t : coq_N) : bool = LintWalk.range_test tbl k v t in
       let evs = LintWalk.lint_module ds in
       let buf = Buffer.create 256 in
       List.iter (function
-        | LintWalk.EvLiteral (p, sg, v, Some t) -> if oor sg v t then Buffer.add_string buf ("(1142 " ^ string_of_n p ^ ")")
+        | LintWalk.EvLiteral (p, k, v, Some t) -> if oor k v t then Buffer.add_string buf ("(1142 " ^ string_of_n p ^ ")")
         | LintWalk.EvLiteral (_, _, _, None) -> ()
         | LintWalk.EvLoopFirst (l, _, _) -> Buffer.add_string buf ("(1800 " ^ string_of_n l ^ ")")) evs;
       let nocc = List.fold_left (fun a d -> a + List.length (LintWalk.occs_decl d)) 0 ds in
